@@ -142,7 +142,8 @@ impl Property for C11 {
     }
 
     fn post(&self, tier: Tier, seed: u64, stats: &mut crate::engine::Stats) -> Result<(), (String, String, Vec<u8>)> {
-        crate::exhaust::bounded_enumeration(self, tier, seed, stats)
+        crate::exhaust::bounded_enumeration(self, tier, seed, stats)?;
+        crate::freerun::free_runs(self, tier, seed, stats)
     }
 
     fn run(&self, src: &mut Src, rep: &mut Report) -> Verdict {
